@@ -14,7 +14,7 @@
 
 use std::str::FromStr;
 
-use anyhow::{bail, Error};
+use anyhow::{format_err, bail, Error};
 
 use crate::bdl::BdlBlock;
 
@@ -655,7 +655,7 @@ fn build_heat_source(source_id: &str, block: &BdlBlock) -> Result<HeatSource, Er
             } else {
                 block.attrs.get_str("HW-LOOP")
             }
-            .expect("No se encuentra circuito de agua en sistema");
+            .map_err(|e| format_err!("No se encuentra circuito de agua en sistema: {}", e))?;
             // let hw_coil_q = block.attrs.get_f32("C-C-HW-COIL-Q").ok();
             Ok(HotWaterLoop {
                 heating_cap,
